@@ -686,9 +686,7 @@ func connRun() {
 		fmt.Fprintf(os.Stderr, "CASE %d\n", c.ID)
 		vh.Emit(runConnCase(c))
 		n++
-		if n%32 == 0 {
-			vh.Flush()
-		}
+		vh.Flush() // per script: the first script without a result is the one that killed the process
 	})
 	vh.Emit(map[string]interface{}{"summary": true, "cases": n})
 }
